@@ -83,6 +83,14 @@ fn run_history(p: &Params, rep: &Report) -> Option<u64> {
     let (seed, err_pm) = (p.seed, p.err_pm);
     sh.set_script(move |k| match k {
         EntryKind::Id(id) => scripted_outcome(*id, seed, err_pm),
+        // the in-band error report is an entry like any other to the stream: in two thirds of the
+        // histories it is refused or fails (it still counts against the one-per-second limit, and
+        // nothing changes for the entries after it)
+        EntryKind::ErrorReport(_) => match seed % 3 {
+            0 => Outcome::Ok,
+            1 => Outcome::Io,
+            _ => Outcome::Validation,
+        },
         _ => Outcome::Ok,
     });
     let counts = Arc::new(Counts::default());
